@@ -265,15 +265,26 @@ class SolverRun:
     # ---- joining the Calculate log with the items of the search information (by point identity)
     def flush_trials(self, objs):
         """Emit trial / fail / local events for Calculate calls not yet reported, in call order."""
-        bypoint = {}
+        bypoint, bycoord = {}, {}
         if objs is not None:
             for it in objs:
                 bypoint[id(it.GetY())] = it
+                if it.GetIndex() >= 0:
+                    bycoord.setdefault(tuple(float(t) for t in it.GetY().floatVariables), []).append(it)
+        self.matched = getattr(self, "matched", set())
         log = self.rp.log
         while self.flushed < len(log):
             ent = log[self.flushed]
             self.flushed += 1
             it = bypoint.get(id(ent["point"]))
+            if it is None and "exc" not in ent:
+                # the solver may hand the objective a copy of the trial's point: join by coordinates (first unmatched evaluated item)
+                for cand in bycoord.get(tuple(ent["y"]), []):
+                    if id(cand) not in self.matched:
+                        it = cand
+                        break
+            if it is not None:
+                self.matched.add(id(it))
             if "exc" in ent:
                 self.emit({"ev": "fail", "ylog": qv(ent["y"]), "exc": ent["exc"], "k": ent["k"], "xinv": self.inverse_of(ent["y"])})
             elif it is None:
